@@ -44,8 +44,13 @@ def run_mc(wd, name, c, invs, workers=8, timeout=1500, variant=VARIANT_CURRENT):
 
 
 def run_gen(wd, name, c, workers=8, timeout=1500, variant=VARIANT_CURRENT):
-    cfg = vlib.tlc_cfg("Spec", mc_constants(c, True, variant), ["Emit"])
-    r = vlib.run_tlc("FrameworkMC", cfg, wd, name, workers=workers, timeout=timeout)
+    """All maximal behaviours of the configuration (BFS), or, with c["simulate"] = n, n random
+    walks per worker (TLC -simulate): long histories that breadth-first generation cannot reach."""
+    # random walks also evaluate the configuration's property invariants at every state they visit
+    cfg = vlib.tlc_cfg("Spec", mc_constants(c, True, variant),
+                       ["Emit"] + (list(c.get("invs", [])) + LOG_INVS if c.get("simulate") else []))
+    args = ["-simulate", "num=%d" % c["simulate"], "-depth", "1500"] if c.get("simulate") else []
+    r = vlib.run_tlc("FrameworkMC", cfg, wd, name, workers=workers, timeout=timeout, args=args)
     beh = os.path.join(wd, name + ".beh")
     r["behaviours"] = vlib.extract_behaviours(r["out"], beh)
     r["beh"] = beh
@@ -202,8 +207,8 @@ def check_fw(prop, tier, seed, plan, verdict_names):
     # 2. behaviours of the specification replayed on the code
     for i, c in enumerate(p.get("gen", [])):
         g = run_gen(wd, "gen%d" % i, c, workers=workers, timeout=c.get("timeout", 1500))
-        if g["error"] or g["behaviours"] == 0:
-            raise ToolError("behaviour generation failed (%s): see %s" % (g["error"], g["out"]))
+        if g["error"] or g.get("violated") or g["behaviours"] == 0:
+            raise ToolError("behaviour generation failed (%s): see %s" % (g.get("violated") or g["error"], g["out"]))
         rd = os.path.join(wd, "rep%d" % i)
         pr = vlib.run_bin("fw_replay", [g["beh"], rd])
         if pr.returncode != 0:
@@ -211,9 +216,11 @@ def check_fw(prop, tier, seed, plan, verdict_names):
         with open(os.path.join(rd, "summary.json")) as f:
             s = json.load(f)
         n, nt, samples = scan_behaviours(g["beh"], prop)
-        log("[%s] GEN %s/%s calls=%d batch=%d: %d behaviours (%d non-trivial) replayed: conform=%d diverged=%d panics=%d (%.1fs)" % (
-            prop, c["family"], c["alphabet"], c["calls"], c["batch"], n, nt, s["conform"],
-            s["diverged"], s["panics"], g["wall"]))
+        log("[%s] GEN%s %s/%s calls=%d batch=%d: %d behaviours (%d non-trivial) replayed: conform=%d diverged=%d panics=%d (%.1fs)" % (
+            prop, " (random walks)" if c.get("simulate") else "", c["family"], c["alphabet"], c["calls"], c["batch"],
+            n, nt, s["conform"], s["diverged"], s["panics"], g["wall"]))
+        if c.get("simulate"):
+            res.exhaustive = False
         res.traces += n
         res.evaluations += n
         res.nontrivial += nt
